@@ -57,12 +57,19 @@ def _calls():
         "order-DMY": lambda: P("02/03/2015", languages=["en"], settings={"DATE_ORDER": "DMY"}),
         "order-YMD": lambda: P("02/03/04", languages=["en"], settings={"DATE_ORDER": "YMD"}),
         "default-num": lambda: P("02/03/2015"),
-        "search-en": lambda: search_dates("on 2 March 2015 and yesterday at noon", languages=["en"]),
+        "search-en": lambda: search_dates("on 2 March 2015 and yesterday", languages=["en"]),
         "persistent": lambda: pp().get_date_data("March"),
         "search-en-past": lambda: search_dates("in March, then on 5 May 2011", languages=["en"], settings={"PREFER_DATES_FROM": "past"}),
         "cache1-en": lambda: P("02/03/2015", languages=["en"], settings={"CACHE_SIZE_LIMIT": 1}),
         "cache1-fr": lambda: P("2 mars 2015", languages=["fr"], settings={"CACHE_SIZE_LIMIT": 1}),
         "jalali": lambda: JalaliCalendar("جمعه سی ام اسفند ۱۳۸۷").get_date(),
+        "rel-base-2020": lambda: P("1 hour ago", languages=["en"], settings={"RELATIVE_BASE": datetime(2020, 1, 15, 12, 0)}),
+        "rel-base-2010": lambda: P("in 2 days", languages=["en"], settings={"RELATIVE_BASE": datetime(2010, 6, 1, 8, 0)}),
+        "default-tz-en": lambda: P("March 3, 2011 10:00 EST"),
+        "default-es": lambda: P("12 abril 2014"),
+        "fr-S-other": lambda: P("03/04/2016", languages=["fr"], settings=dict(S)),
+        "search-fr": lambda: search_dates("le 2 mars 2015 et hier", languages=["fr"]),
+        "search-de": lambda: search_dates("am 3. April 2016 und gestern", languages=["de"]),
         "fr-default": lambda: P("02/03/2015", languages=["fr"]),
         "en-default": lambda: P("02/03/2015", languages=["en"]),
     }
@@ -83,9 +90,15 @@ PAIRS = [
     ("search-vs-persistent-parser", "search-en-past", "persistent"),
     ("cache-limit-1-twice", "cache1-en", "cache1-fr"),
     ("jalali-vs-gregorian", "jalali", "en-num"),
+    ("relative-base-differs", "rel-base-2020", "rel-base-2010"),
+    ("default-parser-tz-string-vs-other-language", "default-tz-en", "default-es"),
+    ("same-config-fr-custom-settings", "fr-S", "fr-S-other"),
+    ("search-fr-vs-search-de", "search-fr", "search-de"),
+    ("search-vs-default-fr-parse", "search-en", "fr-default"),
 ]
 QUICK_WARM = ["same-config-same-language", "same-call-twice", "settings-differ-irrelevant-field", "shared-settings-dict-fr-vs-en",
-              "skip-tokens-differ", "parse-vs-search", "default-settings-fr-vs-en", "normalize-differs"]
+              "skip-tokens-differ", "parse-vs-search", "relative-base-differs", "default-parser-tz-string-vs-other-language",
+              "same-config-fr-custom-settings"]
 QUICK_COLD = ["shared-settings-dict-fr-vs-en"]
 THOROUGH_COLD_ALL = ["shared-settings-dict-fr-vs-en", "same-config-same-language", "skip-tokens-differ"]
 
